@@ -465,15 +465,8 @@ theorem runPrecompile_good (hP : ErrPred P) (addr : Nat) (input : BA) (gas : Nat
     (runPrecompile addr input gas g).gas ≤ gas ∧ P (runPrecompile addr input gas g).err := by
   unfold runPrecompile
   simp only
-  split
-  · exact ⟨by simp, hP _ (by simp)⟩
-  · split
-    · exact ⟨by simp, hP _ (by simp)⟩
-    · split
-      · split
-        · exact ⟨by simp, hP _ (by simp)⟩
-        · exact ⟨by simp, hP _ (by simp)⟩
-      · exact ⟨by simp, hP _ (by simp)⟩
+  repeat' split
+  all_goals (first | exact ⟨Nat.zero_le _, hP _ (by simp)⟩ | exact ⟨Nat.sub_le _ _, hP _ (by simp)⟩)
 
 set_option maxHeartbeats 2000000 in
 theorem evmCall_good {run : Runner} {G : Nat} (hP : ErrPred P) (hr : GoodRun P run G) (depth : Nat) (ro : Bool) (k : CallKind)
